@@ -7,7 +7,7 @@ set -u
 JOBS=${1:-4}
 V=$(cd "$(dirname "$0")/.." && pwd)
 OUT=$V/.work/regress; rm -rf $OUT; mkdir -p $OUT
-ls -d $V/seeded/C??-* | sed 's#.*/##' > $OUT/list
+ls -d $V/seeded/C??-* | sed 's#.*/##' | grep -E "${REGRESS_ONLY:-.}" > $OUT/list   # REGRESS_ONLY: a regular expression selecting the changes to run
 run_one() {
   d=$1; V=$2; OUT=$3; slot=$4
   id=${d%%-*}
